@@ -48,14 +48,14 @@ def generate(ctx):
                "dtype": rng.choice(["float64", "float64", "float32"]), "p": rng.choice([0.2, 0.5, 0.8]),
                "seed": rng.randrange(1 << 30), "events": events,
                # reach the step time through the dt setter after construction (retimed connection) instead of the constructor
-               "retimed_from": rng.choice([None, None, 1.0, 0.5, 2.0]),
+               "retimed_from": rng.choice([None, None, 1.0, 0.5, 2.0]), "inplace": rng.random() < 0.5,
                # reach the maximum delay through the synapse's delay setter (built with a smaller / larger one)
                "redelayed_from": rng.choice([None, None, 0, 1, 2 * K])}
 
 
 def _synctor(desc):
     k = desc["syn"]
-    common = dict(interp_tol=desc["tol"])
+    common = dict(interp_tol=desc["tol"], inplace=bool(desc.get("inplace")))
     if k == "delta":
         return DeltaCurrent.partialconstructor(1.5, desc["interp"], **common)
     if k == "deltaplus":
